@@ -1,4 +1,5 @@
 //! shred_verif harness: one binary, one sub-command per correspondence suite.
+mod exec;
 mod hsys;
 mod plan;
 mod prog;
@@ -18,6 +19,7 @@ fn main() {
     let cmd = args.get(1).map(|s| s.as_str()).unwrap_or("");
     match cmd {
         "plan" => plan_cmd(&args[2..]),
+        "exec" => exec_cmd(&args[2..]),
         _ => {
             eprintln!("usage: shred_verif <plan|...> [options]");
             std::process::exit(2);
@@ -87,5 +89,60 @@ fn plan_cmd(args: &[String]) {
                 emit(map, &regs, &mut out);
             }
         }
+    }
+}
+
+/// exec --gen random|faults --count N --seed S --shard i/n    |   exec --cases FILE
+fn exec_cmd(args: &[String]) {
+    let mut env = exec::ExecEnv::new();
+    let stdout = std::io::stdout();
+    let mut out = std::io::BufWriter::new(stdout.lock());
+    if let Some(f) = arg(args, "--cases") {
+        let rd: Box<dyn BufRead> = if f == "-" { Box::new(std::io::BufReader::new(std::io::stdin())) }
+            else { Box::new(std::io::BufReader::new(std::fs::File::open(f).expect("cases file"))) };
+        for line in rd.lines() {
+            let line = line.unwrap();
+            let case = line.split('\t').next().unwrap().trim();
+            if case.is_empty() || case.starts_with('#') { continue; }
+            let c = exec::ExecCase::parse(case);
+            let obs = exec::observe(&c, &mut env);
+            writeln!(out, "{} :: {}\t{}", c.head(), prog::to_text(&c.regs), obs).unwrap();
+        }
+        return;
+    }
+    let gen = arg(args, "--gen").unwrap_or("random");
+    let count: u64 = arg(args, "--count").map(|s| s.parse().unwrap()).unwrap_or(100);
+    let seed: u64 = arg(args, "--seed").map(|s| s.parse().unwrap()).unwrap_or(1);
+    let (si, _sn) = arg(args, "--shard").map(|s| { let (a, b) = s.split_once('/').unwrap(); (a.parse::<u64>().unwrap(), b.parse::<u64>().unwrap()) }).unwrap_or((0, 1));
+    let mut rng = Rng::new(seed.wrapping_mul(7_000_003).wrapping_add(si).wrapping_add(0xE8EC));
+    for _ in 0..count {
+        let mut r = rng.fork();
+        let regs = prog::gen_exec(&mut r, gen == "kf1");
+        let mut tags = Vec::new();
+        prog::all_tags(&regs, &mut tags);
+        let uses_menu = prog::uses_menu(&regs);
+        let map = if uses_menu { MapMode::A } else { [MapMode::A, MapMode::B, MapMode::C][r.below(3) as usize] };
+        let pool = [1usize, 2, 4, 16][r.below(4) as usize];
+        let ncalls = 1 + r.below(3);
+        let calls: Vec<char> = (0..ncalls).map(|_| ['d', 'd', 'd', 'p', 's', 't'][r.below(6) as usize]).collect();
+        let mut faults = Vec::new();
+        let mode = if gen == "faults" {
+            if !tags.is_empty() {
+                faults.push(tags[r.below(tags.len() as u64) as usize]);
+                if r.chance(1, 4) { faults.push(tags[r.below(tags.len() as u64) as usize]); }
+                faults.sort(); faults.dedup();
+            }
+            if r.chance(1, 2) { exec::Mode::Overlap } else { exec::Mode::Jitter(r.next()) }
+        } else {
+            match r.below(6) {
+                0 => exec::Mode::Free,
+                1 | 2 => if tags.is_empty() { exec::Mode::Free } else { exec::Mode::Hold(tags[r.below(tags.len() as u64) as usize]) },
+                3 | 4 => exec::Mode::Overlap,
+                _ => exec::Mode::Jitter(r.next()),
+            }
+        };
+        let c = exec::ExecCase { map, pool, mode, calls, faults, regs };
+        let obs = exec::observe(&c, &mut env);
+        writeln!(out, "{} :: {}\t{}", c.head(), prog::to_text(&c.regs), obs).unwrap();
     }
 }
